@@ -6,7 +6,7 @@ from gcv import facts, model, coverage, interp
 from gcv.model import norm
 
 POINTER_FREE = {"core::marker::PhantomData<T>": "zero-sized marker, stores nothing", "()": "unit"}
-FLOORS = {"default": 70, "nodefault": 60, "all": 78}
+FLOORS = {"default": 40, "nodefault": 35, "all": 45}
 
 
 def impl_items(prog, im):
